@@ -316,6 +316,12 @@ def _run_linear(case, ctx):
     f1, fa, f2, f12 = (np.asarray(r.value) for r in (r1, ra, r2, r12))
     ctx.label("linear:" + spec["cls"])
     ctx.label("linear:a=" + case["akind"])
+    # rows in which any of the four evaluations is non-finite are C15's subject (finite field at every finite
+    # observer); linearity has nothing to compare there
+    nonfin = ~(np.all(np.isfinite(f1), axis=-1, keepdims=True) & np.all(np.isfinite(fa), axis=-1, keepdims=True)
+               & np.all(np.isfinite(f2), axis=-1, keepdims=True) & np.all(np.isfinite(f12), axis=-1, keepdims=True)) * np.ones(3, dtype=bool)
+    if np.any(nonfin):
+        ctx.label("nonfinite_rows_left_to_C15")
 
     def spread_of(x):
         """Numerical noise of F(x): what an 8-ulp displacement of the observers does to it."""
@@ -352,13 +358,13 @@ def _run_linear(case, ctx):
     far_loss = far_loss + np.where(band > 1e-5, 3.0 * band, 0.0)
     # scale per observer: magnitude of the field vector there (components may cancel to ~0)
     sc = abs(a) * np.max(np.abs(f1), axis=-1, keepdims=True) + 1e-300
-    sc = np.maximum(sc, float(np.max(sc)) * 1e-9) * np.ones_like(f1)
+    sc = np.maximum(sc, float(np.nanmax(np.where(np.isfinite(sc), sc, 0.0))) * 1e-9) * np.ones_like(f1)
     with np.errstate(invalid="ignore"):
-        bad = ~(np.abs(fa - a * f1) <= (tol + _far(far_loss, f1)) * sc) & ~(np.isnan(fa) & np.isnan(f1))
+        bad = ~(np.abs(fa - a * f1) <= (tol + _far(far_loss, f1)) * sc) & ~nonfin
     if np.any(bad):
         noise = 20.0 * (abs(a) * spread_of(x1) + spread_of(a * x1))
         with np.errstate(invalid="ignore"):
-            bad = ~(np.abs(fa - a * f1) <= (tol + _far(far_loss, f1)) * sc + noise) & ~(np.isnan(fa) & np.isnan(f1))
+            bad = ~(np.abs(fa - a * f1) <= (tol + _far(far_loss, f1)) * sc + noise) & ~nonfin
         if not np.any(bad):
             ctx.label("illconditioned_tolerated")
     if np.any(bad):
@@ -366,13 +372,13 @@ def _run_linear(case, ctx):
         out.append(Violation({"sub": "homogeneity", "cls": spec["cls"], "field": case["field"]},
                              f"F({a}*x) != {a}*F(x): max rel err {err:.3g}"))
     sc2 = np.max(np.abs(f1), axis=-1, keepdims=True) + np.max(np.abs(f2), axis=-1, keepdims=True) + 1e-300
-    sc2 = np.maximum(sc2, float(np.max(sc2)) * 1e-9) * np.ones_like(f1)
+    sc2 = np.maximum(sc2, float(np.nanmax(np.where(np.isfinite(sc2), sc2, 0.0))) * 1e-9) * np.ones_like(f1)
     with np.errstate(invalid="ignore"):
-        bad = ~(np.abs(f12 - (f1 + f2)) <= (tol_add + _far(far_loss, f1)) * sc2) & ~(np.isnan(f12) & (np.isnan(f1) | np.isnan(f2)))
+        bad = ~(np.abs(f12 - (f1 + f2)) <= (tol_add + _far(far_loss, f1)) * sc2) & ~nonfin
     if np.any(bad):
         noise = 20.0 * (spread_of(x1) + spread_of(x2) + spread_of(x1 + x2))
         with np.errstate(invalid="ignore"):
-            bad = ~(np.abs(f12 - (f1 + f2)) <= (tol_add + _far(far_loss, f1)) * sc2 + noise) & ~(np.isnan(f12) & (np.isnan(f1) | np.isnan(f2)))
+            bad = ~(np.abs(f12 - (f1 + f2)) <= (tol_add + _far(far_loss, f1)) * sc2 + noise) & ~nonfin
         if not np.any(bad):
             ctx.label("illconditioned_tolerated")
     if np.any(bad):
